@@ -2,6 +2,7 @@ import Rustemo.Proofs.TableComplete
 import Rustemo.Proofs.TableSafe4
 import Rustemo.Proofs.TableFuel
 import Rustemo.Proofs.TableRN
+import Rustemo.Proofs.TableJust4
 import Rustemo.Proofs.TLR
 import Rustemo.Props.Example
 /-!
@@ -105,6 +106,32 @@ theorem C01_construction_accepts_exactly (g : Grammar) (hg : gwf g = true) (hnl 
   · rintro ⟨tx, hv, hy⟩
     obtain ⟨n, hn⟩ := tparse_complete g t hW hC hs.item_prod tx hv
     exact ⟨n, tx.plain, by rw [← hy]; exact hn⟩
+
+/-- **construction_lookaheads_exact** (d, the part that is proved; all three table types, both algorithms,
+    Layout rule or not, Pager splitting included).  Let `sts` be the automaton the construction has built when
+    conflict resolution starts (the final table has exactly its items with their lookaheads, its gotos, and of
+    its SHIFT entries those that resolution kept).  Then for every state `i`, item `(p, d)` and terminal `a`:
+
+      `a` is a lookahead of `(p, d)` in state `i`   ⟺   `Just g t.firsts autos sts i p d a`,
+
+    where `Just` (Proofs/TableJust.lean) is defined from the grammar, rustemo's FIRST sets and the recorded
+    TRANSITIONS alone: STOP on a start item; `gen` — `a ∈ FIRST(β)` for a closure item of a reachable
+    `[A → α.Bβ]`; `prop` — β nullable, inside a state; `trans` — along a transition.  So nothing is lost
+    (⇐: the sets are closed under the LALR(1) equations — `first_sets`, closure and `propagate_follows` reach
+    their fixpoints) and NOTHING IS INVENTED (⇒: every lookahead ever added by closure, `merge_state` or
+    `propagate_follows` has such a derivation): the lookahead sets are the LEAST solution of the LALR(1)
+    generation / propagation equations over the automaton that was built.  Not proved (C04's remaining step,
+    decided per table by `Cover.check`): that this automaton is the merge of the canonical LR(1) automaton and
+    that the least solution is the union of the canonical lookaheads. -/
+theorem construction_lookaheads_exact (g : Grammar) (hg : gwf g = true) (s : Settings) (fuel : Nat) (t : Table)
+    (h : build g s fuel = .ok t) :
+    ∃ (sts : Array State) (autos : List (Nat × Nat)), AutosOf g t autos ∧ sts.size = t.states.size ∧
+      (∀ (i : Nat) (st' : State), t.states[i]? = some st' → ∃ st, sts[i]? = some st ∧ st'.items = st.items ∧
+        st'.gotos = st.gotos ∧
+        ∀ a s', Action.shift s' ∈ st'.actions.getD a [] → Action.shift s' ∈ st.actions.getD a []) ∧
+      ∀ i p d a, (∃ st it, sts[i]? = some st ∧ it ∈ st.items ∧ it.prod = p ∧ it.dot = d ∧ a ∈ it.la) ↔
+        Just g t.firsts autos sts i p d a :=
+  build_lookaheads_exact hg h
 
 /-! ## non-vacuity: `S: 'a' S | EMPTY` -/
 
